@@ -20,7 +20,7 @@ RULE = ("schemas with mutable defaults on typed lists/dicts (scalars, dict items
         "load of the unchanged files; hand-made argparse namespaces (known options, options a dynamic or fixed section "
         "does not declare) go through cmdline_args_override; non-trivial = >= 3 "
         "operations applied with >= 1 in-place mutation or dynamic field; distinct = distinct (schema, history)")
-REQUIRED = ("failed_include_loads", "foreign_method_secrets_loaded", "schemas_with_environment_prefix", "resets_then_inplace_mutations", "cmdline_namespaces_applied", "same_document_loads", "cross_assignments", "serialisations_applied", "twin_before_checks", "twin_after_checks", "fingerprint_checks", "shared_item_checks", "ops_applied",
+REQUIRED = ("inner_containers_changed_in_place", "asdict_results_changed_in_place", "failed_include_loads", "foreign_method_secrets_loaded", "schemas_with_environment_prefix", "resets_then_inplace_mutations", "cmdline_namespaces_applied", "same_document_loads", "cross_assignments", "serialisations_applied", "twin_before_checks", "twin_after_checks", "fingerprint_checks", "shared_item_checks", "ops_applied",
             "inplace_mutations", "dynamic_fields_added")
 ASSUMPTIONS = ["deep mutation inside an *untyped* default (ListField(default=[[1]]), Field(default=[...])) is out of "
                "scope: the property quantifies over mutable defaults on typed fields"]
@@ -46,6 +46,18 @@ def generate(rng, ctx):
             items = [_no_untyped(nd["item"], gen.tree_for(rng, nd["item"], env, valid=True)) for _ in range(rng.choice([1, 2]))]
             if all(model.accepts_tree(nd["item"], t, env)[0] is True for t in items):
                 nd["params"]["default"] = items
+    # typed containers of typed containers
+    nested = []
+    if rng.random() < 0.6:
+        I = {"kind": "field", "family": "int", "params": {}}
+        S = {"kind": "field", "family": "str", "params": {}}
+        L = lambda item: {"kind": "field", "family": "list", "params": {}, "item": item}  # noqa: E731
+        D = lambda valf: {"kind": "field", "family": "dict", "params": {}, "keyf": dict(S), "valf": valf}  # noqa: E731
+        for key, node, x in (("nl0", L(L(dict(I))), 7), ("nd0", D(L(dict(S))), "zz"), ("dd1", D(D(dict(I))), 5)):
+            if rng.random() < 0.7 and all(ch["key"] != key for ch in schema["fields"]):
+                node["key"] = key
+                schema["fields"].append(node)
+                nested.append((key, x))
     n = rng.randrange(4, 40 if thorough else 22)
     ops = history.gen_ops(rng, schema, env, n, bad=0.15)
     ops = [op for op in ops if op["op"] != "cmdline"]
@@ -88,6 +100,14 @@ def generate(rng, ctx):
         if items:
             ops.insert(rng.randrange(len(ops) + 1), {"op": "cmdline_ns", "items": items,
                                                      "ignore": rng.choice([None, None, "config", [items[0][0]]])})
+    # the nested typed containers are filled, taken over by the twin (cross assignment below) and then changed in place
+    # one level down through configuration a
+    start = {"nl0": [[1, 2], [3]], "nd0": {"k": ["x"], "m": ["y", "z"]}, "dd1": {"k": {"a": 1}, "m": {"b": 2}}}
+    for key, x in nested:
+        ops.insert(0, {"op": "set", "route": "attr", "path": key, "value": start[key]})
+        cross.insert(0, key)
+        for _ in range(2):
+            ops.insert(rng.randrange(1, len(ops) + 1), {"op": "inner_mutate", "path": key, "x": x, "which": rng.randrange(4), "k": "zq%d" % rng.randrange(3)})
     # documents written by another tool: a secret encrypted with the other provider than the field declares
     for path, nd in history.all_paths(schema):
         if "[]" not in path and nd["kind"] == "field" and nd["family"] == "secure" and rng.random() < 0.7:
@@ -258,6 +278,17 @@ def run(case, ctx, res):
     drv = history.Driver(ctx, res, case["schema"], env)
     a = drv.cfg
     b = cc.Config(drv.built.schema, key_filename=drv.keyfile)
+    # (values the cross assignment needs are set first: the leading `set` operations of the nested containers)
+    lead = 0
+    for op in case["ops"]:
+        if op["op"] == "set" and op.get("path") in ("nl0", "nd0", "dd1") and op.get("route") == "attr":
+            try:
+                drv.step(op)
+            except Exception:
+                pass
+            lead += 1
+        else:
+            break
     for path in case.get("cross", ()):
         from .. import spec as _spec
 
@@ -275,6 +306,8 @@ def run(case, ctx, res):
     history.flags_for_tree(drv.root, {}, "", fresh_flags)
     applied = inplace = dyn = 0
     for idx, op in enumerate(case["ops"]):
+        if idx < lead:
+            continue  # applied before the cross assignment
         out = drv.step(op)
         if out is None:
             continue
@@ -283,6 +316,8 @@ def run(case, ctx, res):
         if out.get("inplace") and out["raised"] is None:
             inplace += 1
             res.count("inplace_mutations")
+        if out["kind"] == "inner-mutate" and out["raised"] is None:
+            res.count("inner_containers_changed_in_place")
         if out["kind"] == "serialize":
             res.count("serialisations_applied")
         if out["kind"] == "cmdline-ns":
@@ -306,6 +341,22 @@ def run(case, ctx, res):
         if d:
             res.viol("M-twin", "schema:" + feat, "step %d: %s at %r changed the schema: %s" % (idx, out["kind"], out["path"], d))
             return
+        if idx % 4 == 1:
+            # what asdict() hands out belongs to the caller: changing every container of it (also the empty ones) in place
+            # must not reach the configuration
+            try:
+                a_before = Snapshot(a)
+                handed = cc.asdict(a)
+            except Exception:
+                handed = None
+            if isinstance(handed, dict):
+                _scramble_top(handed, drv.root)
+                res.count("asdict_results_changed_in_place")
+                d = a_before.diff(Snapshot(a))
+                if d:
+                    res.viol("M-twin", "asdict-shares-containers:" + feat, "step %d: changing the result of asdict(a) in place changed a: %s" % (
+                        idx, "; ".join(d[:4])))
+                    return
         if idx % 4 == 3 or idx == len(case["ops"]) - 1:
             res.count("twin_after_checks")
             c = cc.Config(drv.built.schema, key_filename=drv.keyfile)
@@ -322,6 +373,34 @@ def run(case, ctx, res):
                 return
     if applied >= 3 and (inplace or dyn):
         res.nontrivial(case["schema"], case["ops"])
+
+
+def _scramble_top(d, node):
+    """Change in place exactly what asdict() builds itself: the map of every (nested) configuration, every list (lists in
+    lists, configurations in lists) and the one-level copy of every dict - not what lies inside dict values, which it
+    documents as preserved as-is."""
+    kids = {ch["key"]: ch for ch in model.fields_of(node)["fields"]} if node else {}
+    for k, v in list(d.items()):
+        ch = kids.get(k)
+        if ch is not None and ch["kind"] in ("schema", "ctype") and isinstance(v, dict):
+            _scramble_top(v, ch)
+        elif isinstance(v, list):
+            _scramble_list(v, ch.get("item") if ch is not None and ch["kind"] == "field" and ch["family"] == "list" else None)
+        elif isinstance(v, dict):
+            v["__changed__"] = 1
+    d["__changed__"] = 1
+
+
+def _scramble_list(lst, item):
+    for it in lst:
+        if isinstance(it, list):
+            _scramble_list(it, None)
+        elif isinstance(it, dict):
+            if item is not None and item["kind"] in ("schema", "ctype"):
+                _scramble_top(it, item)
+            else:
+                it["__changed__"] = 1
+    lst.append("__changed__")
 
 
 def _shared_schema(cc):
